@@ -15,7 +15,8 @@ import (
 //	get SRC K F | has SRC K | iter SRC P U | scan SRC P U  reads; SRC = db | bN | sN
 //	newbatch IDX | bput B K V | bdel B K | bdelrange B S E | bsize B | bwrite B | bclose B
 //	snap | sclose S
-//	first I | next I | prev I | seek I K | value I | iclose I
+//	first I | next I | prev I | seek I K | value I | key I | iclose I
+//	rscan SRC P U T | getw SRC K K2 V2 | reopen        (flush, xupdate: harness-only, no model line)
 //	update IDX FAIL inner;inner;...                     db.Update (IDX=1) / db.Write (IDX=0)
 //	close
 type Op struct {
@@ -30,6 +31,7 @@ type Op struct {
 	Idx   bool   `json:"idx,omitempty"`  // indexed batch / Update (vs Write)
 	NilB  bool   `json:"nil,omitempty"`  // pass nil instead of []byte{} for empty byte strings
 	Wrap  string `json:"wrap,omitempty"` // newbatch: "" | "sync" (db.SyncBatch) | "buffer" (db.BufferBatch) around an indexed batch
+	Key2  []byte `json:"key2,omitempty"` // getw: key written by the callback; rscan: seek target
 	Inner []Op   `json:"inner,omitempty"`
 }
 
@@ -62,6 +64,14 @@ func (o Op) Line() string {
 		return "has " + o.Src + " " + hx(o.Key)
 	case "iter", "scan":
 		return o.K + " " + o.Src + " " + hx(o.Key) + " " + b01(o.U)
+	case "rscan":
+		return "rscan " + o.Src + " " + hx(o.Key) + " " + b01(o.U) + " " + hx(o.Key2)
+	case "getw":
+		return "getw " + o.Src + " " + hx(o.Key) + " " + hx(o.Key2) + " " + hx(o.Val)
+	case "reopen":
+		return "reopen"
+	case "flush", "xupdate":
+		return "" // harness-only: no effect in the models / not modelled (compared backend against backend)
 	case "newbatch":
 		return "newbatch " + b01(o.Idx)
 	case "bput":
@@ -70,7 +80,7 @@ func (o Op) Line() string {
 		return fmt.Sprintf("bdel %d %s", o.H, hx(o.Key))
 	case "bdelrange":
 		return fmt.Sprintf("bdelrange %d %s %s", o.H, hx(o.Key), hx(o.End))
-	case "bsize", "bwrite", "bclose", "sclose", "first", "next", "prev", "value", "iclose":
+	case "bsize", "bwrite", "bclose", "sclose", "first", "next", "prev", "value", "key", "iclose":
 		return fmt.Sprintf("%s %d", o.K, o.H)
 	case "seek":
 		return fmt.Sprintf("seek %d %s", o.H, hx(o.Key))
@@ -111,6 +121,9 @@ func lines(ops []Op) []string {
 	out := make([]string, len(ops))
 	for i, o := range ops {
 		out[i] = o.Line()
+		if out[i] == "" {
+			out[i] = "(" + o.K + " " + o.Src + ")"
+		}
 	}
 	return out
 }
